@@ -810,10 +810,62 @@ func (cx *Ctx) checkVerifierRefusals(r *Report) {
 				}
 			}
 			if !okReason {
+				// what remains is judged by what the condition looks at: a property of the values the verifier was
+				// given (length of the signature, size of the key) is its business; the layout of the document tree
+				// (position of an element among the child tokens, number of children, white-space nodes) is not -
+				// the same signed content may be serialised with other white space
+				if !mentionsTreeLayout(last.Cond, 0) {
+					okReason = true
+				}
+			}
+			if !okReason {
 				bad = "refuses under " + last.String() + " at " + w.InstrPos(p.Ret)
 			}
 		}
 		r.Check(bad == "", "R-REJECT", "verifier:"+w.FuncKey(fn), w.FnPos(fn), "refuses only for a callee's verdict, an absent part, a key type or an unsupported algorithm", w.FuncKey(fn)+" "+bad+": that is not a reason a verifier has - correctly signed messages in another legal serialisation are turned away")
 	}
 	r.Check(n >= 3, "R-REJECT", "verifier:#functions", "", fmt.Sprintf("%d verification helpers examined", n), fmt.Sprintf("only %d verification helpers found", n))
+}
+
+// mentionsTreeLayout: the condition is computed from the layout of an etree document: Index(), the Child token list,
+// counts of children - anything but finding / not finding an element.
+func mentionsTreeLayout(v ssa.Value, depth int) bool {
+	if v == nil || depth > 6 {
+		return false
+	}
+	switch x := v.(type) {
+	case *ssa.Call:
+		nm := calleeName(x)
+		if strings.Contains(nm, "etree.") && (strings.HasSuffix(nm, ").Index") || strings.HasSuffix(nm, ").ChildElements") || strings.HasSuffix(nm, ").NextSibling") || strings.HasSuffix(nm, ").PrevSibling")) {
+			return true
+		}
+		if b, ok := x.Call.Value.(*ssa.Builtin); ok && (b.Name() == "len" || b.Name() == "cap") {
+			return mentionsTreeLayout(x.Call.Args[0], depth+1)
+		}
+		return false
+	case *ssa.UnOp:
+		return mentionsTreeLayout(x.X, depth+1)
+	case *ssa.BinOp:
+		return mentionsTreeLayout(x.X, depth+1) || mentionsTreeLayout(x.Y, depth+1)
+	case *ssa.FieldAddr:
+		if fieldOwner(x.X.Type()) == "etree.Element" && fname(fieldVar(x.X.Type(), x.Field)) == "Child" {
+			return true
+		}
+		return mentionsTreeLayout(x.X, depth+1)
+	case *ssa.IndexAddr:
+		return mentionsTreeLayout(x.X, depth+1)
+	case *ssa.Index:
+		return mentionsTreeLayout(x.X, depth+1)
+	case *ssa.TypeAssert:
+		return mentionsTreeLayout(x.X, depth+1)
+	case *ssa.Extract:
+		return mentionsTreeLayout(x.Tuple, depth+1)
+	case *ssa.Phi:
+		for _, e := range x.Edges {
+			if e != v && mentionsTreeLayout(e, depth+1) {
+				return true
+			}
+		}
+	}
+	return false
 }
